@@ -383,32 +383,47 @@ def build_jobs(ctx):
 # The exhaustive / random parts above never leave n <= 10 and k <= 10 communities.  Narrow
 # integer or float types for label ranks, community counters or label values (int8, uint8, int16,
 # float32, int32 ...) and label arithmetic in place of equality tests only show beyond that: this
-# family visits 130..320 nodes, 2 / ~n/2 / n / 127..129 / 255..257 communities, and label values
+# family visits 130..400 nodes, 2 / ~n/3 / ~n/2 / n / 127..129 / 255..257 communities, and label values
 # around every type boundary, renamed by order-reversing, affine and arbitrary injective maps.
 SCALE_LIMIT = 240.0                 # seconds per job (two calls; gateway_coef_sign is O(k n^2))
 LABEL_MAX = 999999999               # |record label| < 10^9 (encode.e_int; TLC integers are 32-bit)
 TYPE_EDGES = (2 ** 7, 2 ** 8, 2 ** 15, 2 ** 16, 2 ** 24)      # int8 uint8 int16 uint16 float32
 
 
-def scale_network(rng, n, typ, support):
-    """W on n nodes, integer weights 1..3 (random signs for 'sign'): sparse G(n,p) of mean
-    degree 5..12 (many neighbours in many different communities) or a ring of n/2 two-cliques
-    with random chords"""
+def scale_network(rng, n, typ, support, b):
+    """W on n nodes, integer weights 1..3 (random signs for 'sign'): sparse G(n,p) of mean degree
+    5..12 (many neighbours in many different communities) or a ring of n/2 two-cliques with random
+    chords; on top, nodes of the same block of `b` are joined with a drawn probability (about <= 6
+    such neighbours per node) - with hundreds of small communities a network drawn independently
+    of the partition has no within-module connection and every within-module statistic is 0"""
+    rs = np.random.RandomState(rng.getrandbits(32))
     und = typ != "dir"
     if support == "gnp":
-        p = rng.choice([5.0, 8.0, 12.0]) / n
-        return inputs.rand_graph(rng, n, p, und=und, wmax=3, signed=(typ == "sign"))
-    edges = rc.s_clique_ring(n // 2, 2) + [tuple(sorted(rng.sample(range(n), 2))) for _ in range(n)]
-    edges = sorted(set(e for e in edges if e[0] != e[1]))
-    if not und:
-        edges = rc.orient(rng, edges)
-    w = [rng.randint(1, 3) * (rng.choice([1, -1]) if typ == "sign" else 1) for _ in edges]
-    return inputs.mat_from_edges(n, edges, und=und, w=w)
+        M = rs.rand(n, n) < rng.choice([5.0, 8.0, 12.0]) / n
+    else:
+        M = np.zeros((n, n), dtype=bool)
+        for i, j in rc.s_clique_ring(n // 2, 2) + [tuple(rng.sample(range(n), 2)) for _ in range(n)]:
+            if und or rng.random() < 0.7:
+                M[i, j] = True
+            if und or rng.random() < 0.7:
+                M[j, i] = True
+    bb = np.array(b)
+    size = np.bincount(bb)[bb].astype(float)
+    q = np.minimum(rng.choice([0.3, 0.6, 0.9]), 6.0 / size)
+    M = M | ((bb[:, None] == bb[None, :]) & (rs.rand(n, n) < q[:, None]))
+    W = M * rs.randint(1, 4, (n, n))
+    if typ == "sign":
+        W = W * np.where(rs.rand(n, n) < 0.4, -1, 1)
+    if und:
+        W = np.triu(W, 1)
+        W = W + W.T
+    np.fill_diagonal(W, 0)
+    return W.astype(float)
 
 
 def scale_shapes(n):
     ks = [k for k in (127, 128, 129, 255, 256, 257) if k <= n]
-    return ["two", "pairs", "singletons", "near-singletons", "consecutive-pairs"] + ["k=%d" % k for k in ks]
+    return ["two", "pairs", "triples", "singletons", "near-singletons", "consecutive-pairs"] + ["k=%d" % k for k in ks]
 
 
 def scale_partition(rng, n, shape):
@@ -420,9 +435,9 @@ def scale_partition(rng, n, shape):
         m = rng.randint(1, n - 1)
         for v in nodes[:m]:
             b[v] = 1
-    elif shape == "pairs":                           # ~n/2 communities: a random matching
+    elif shape in ("pairs", "triples"):              # ~n/2 (~n/3) communities: a random matching
         for k, v in enumerate(nodes):
-            b[v] = k // 2
+            b[v] = k // (2 if shape == "pairs" else 3)
     elif shape == "consecutive-pairs":               # the two-cliques of the ring
         b = [i // 2 for i in range(n)]
     elif shape == "singletons":
@@ -494,22 +509,26 @@ def scale_jobs(ctx):
     fns = sorted(FNS)
     jobs = []
     if ctx.quick:
-        plan = [(rng.randint(130, 180), "gnp"), (rng.randint(257, 320), rng.choice(["gnp", "pair-ring"]))]
+        plan = [(rng.randint(130, 180), "gnp"), (rng.randint(384, 400), rng.choice(["gnp", "pair-ring"]))]
     else:
         plan = [(rng.randint(130, 160), "gnp"), (rng.randint(130, 256), "pair-ring"),
                 (rng.randint(161, 256), "gnp"), (rng.randint(257, 290), "gnp"),
-                (rng.randint(257, 320), "pair-ring"), (rng.randint(291, 320), "gnp")]
+                (rng.randint(257, 320), "pair-ring"), (rng.randint(384, 400), "gnp")]
     for n, support in plan:
-        nets = {typ: _sparse(scale_network(rng, n, typ, support)) for typ in ("und", "dir", "sign")}
         parts = []
         for shape in scale_shapes(n):
             b = scale_partition(rng, n, shape)
             perm = sorted(set(b))                    # blocks numbered 0..k-1 at random
             rng.shuffle(perm)
             dense = {x: i for i, x in enumerate(perm)}
-            parts.append((shape, [dense[x] for x in b], len(perm)))
+            b = [dense[x] for x in b]
+            nets = {typ: _sparse(scale_network(rng, n, typ, support, b)) for typ in ("und", "dir", "sign")}
+            parts.append((shape, b, len(perm), nets))
         top = 256 if n >= 256 else 128               # the largest regime of community counts this n allows
         top_parts = [q for q in parts if q[2] >= top]
+        # >= 127 communities of two or more nodes on average (n >= 254): within-module statistics are
+        # not trivially zero there; below that size, the community counts next to a type boundary
+        chunky_parts = [q for q in parts if 127 <= q[2] <= n // 2] or [q for q in parts if q[0].startswith("k=")]
 
         def labelling(part, style):
             lab = scale_labels(rng, part[2], style)
@@ -520,7 +539,7 @@ def scale_jobs(ctx):
 
         def one(fn, part, s1, s2):
             c1, c2 = labelling(part, s1), labelling(part, s2)
-            j = relabel_job(rng, fn, src_of(part), nets[FNS[fn]], [c1], [c2], p_plain=0.3)
+            j = relabel_job(rng, fn, src_of(part), part[3][FNS[fn]], [c1], [c2], p_plain=0.3)
             j["civar1"], j["civar2"] = scale_civar(rng, [c1]), scale_civar(rng, [c2])
             j["styles"] = [s1, s2]
             jobs.append(j)
@@ -531,9 +550,14 @@ def scale_jobs(ctx):
                                (rng.choice(SCALE_STYLES), rng.choice(SCALE_STYLES))])
         for fn in fns:
             if ctx.quick:
-                # per routine and network: the order-reversing renaming of a partition from the top
-                # regime, and a drawn renaming of a drawn partition
+                # per routine and n: the order-reversing renaming of a partition from the top regime,
+                # an order-changing renaming of a partition with many communities of several nodes,
+                # and a drawn renaming of a drawn partition
                 one(fn, rng.choice(top_parts), "natural", "reversed")
+                if n > 200 and fn.startswith("gateway_coef_sign"):      # seconds per call at this size
+                    continue
+                one(fn, rng.choice(chunky_parts), *rng.choice([("natural", "reversed"), ("reversed", "gapped"),
+                                                             ("zero-based", "negative")]))
                 one(fn, rng.choice(parts), *drawn_pair())
                 continue
             heavy = fn.startswith("gateway_coef_sign")          # O(k n^2) python loop per call
@@ -628,8 +652,9 @@ def run(ctx):
                 "shapes incl. one block / all singletons / equal blocks; networks also as int64/int32 arrays and in "
                 "other memory layouts, label vectors as int64/int32/float64 (also fractional, strided; drawn "
                 "independently for the two labellings), gamma in {1/2,1,2} for modularity_*, all drawn from the "
-                "seeded RNG; scale regime: %d seeded networks with 130..320 nodes (sparse G(n,p), rings of two-cliques "
-                "with chords) x partitions with 2 / ~n/2 / n-d / n / 127,128,129 / 255,256,257 communities x every "
+                "seeded RNG; scale regime: %d seeded n in 130..400 (sparse G(n,p), rings of two-cliques with chords, "
+                "plus planted within-module connections) x partitions with 2 / ~n/3 / ~n/2 / n-d / n / 127,128,129 / "
+                "255,256,257 communities x every "
                 "function variant, labellings natural -> order-reversed, -> affine (increasing and decreasing) and "
                 "drawn pairs of zero-based/negative/gapped/large(~10^9)/straddling 2^7,2^8,2^15,2^16,2^24 label "
                 "sets, also handed over x4096 (beyond int32); partition_distance of a partition with its renaming, "
@@ -648,7 +673,7 @@ def run(ctx):
         "of them, so the record's labellings are relabellings of what the code saw)",
         "labels scaled up are handed to the code as 4096 x the integer labels of the record (again an injective "
         "renaming; record labels stay below 10^9 in magnitude because TLC integers are 32-bit)",
-        "scale-regime records (n up to 320) are judged by the same clauses: they relate the two outcomes of one "
+        "scale-regime records (n up to 400) are judged by the same clauses: they relate the two outcomes of one "
         "pair of calls and re-check co-membership of the two labellings, no expected value is computed",
         "a function that raises the same exception for both labellings is skipped (no result to compare)",
     ]
